@@ -51,6 +51,33 @@ def bytes_per_frame_shape(F, b, o):
     return True, ""
 
 
+def _fields_deep(F, b, o):
+    """fields an operand is made of, including what closures handed to the calls in its slice read (a seek point picked by
+    `.find_map(|p| .. Some((p.sample_offset, p.byte_offset)))` hands its fields on as a plain tuple)"""
+    sl = backward_slice(b, o)
+    out = set(sl["fields"])
+    todo = [c for t in sl["calls"] for c in (t.get("cls") or ())]
+    seen = set()
+    while todo:
+        c = todo.pop()
+        if c in seen:
+            continue
+        seen.add(c)
+        cb = F.body(c)
+        if cb is None:
+            continue
+        for bl in cb.blocks:
+            for s_ in bl["s"]:
+                for o2 in rv_operands(s_["rv"]):
+                    if isinstance(o2, dict) and op_place(o2) is not None:
+                        out |= set(f for f in place_fields(op_place(o2)) if f)
+                if s_["rv"]["r"] in ("ref", "disc"):
+                    out |= set(f for f in place_fields(s_["rv"]["p"]) if f)
+        for _, t2 in cb.calls():
+            todo += list(t2.get("cls") or ())
+    return out
+
+
 def frame_offset_rules(F, rep, P):
     """FrameIterator yields (frame, byte position of that frame's first byte): the position is the counter's value taken
     before the frame is read (generate_seektable turns these into SEEKTABLE byte offsets)"""
@@ -227,13 +254,39 @@ def run(ctx, rep):
         if len(mins) == 1 and len(cons) >= 1:
             M = mins[0][1]
 
-            def direct(o):
-                """operand is M's result through copies / casts only"""
-                rp = root_place(b, o) if op_place(o) is not None else None
-                if rp is None or rp["p"]:
+            def direct(o, depth=6):
+                """operand is M's result through copies / casts only - also when it travelled through Ok(..) and `?`
+                (a helper `fn step(..) -> Result<usize, Error>` that was inlined)"""
+                if depth <= 0 or op_place(o) is None:
+                    return False
+                rp = root_place(b, o)
+                if rp is None:
+                    return False
+                if [e for e in rp["p"] if not (e.startswith("as Continue") or e.startswith("as Ok") or e.startswith("as Some") or re.match(r"^\.0:", e))]:
                     return False
                 ds = [d for d in b.defs().get(rp["l"], []) if not d[2]["d"]["p"]]
-                return len(ds) == 1 and ds[0][1] == "T" and ds[0][2] is M
+                if not ds:
+                    return False
+                hit = False
+                for d in ds:
+                    if d[1] == "T":
+                        if d[2] is M:
+                            hit = True
+                        elif re.search(r"Try>::branch$|::Try::branch$", callee_name(d[2])) and d[2]["a"] and direct(d[2]["a"][0], depth - 1):
+                            hit = True
+                        else:
+                            return False
+                    else:
+                        rv = d[2]["rv"]
+                        if rv["r"] == "agg" and rv.get("var") in ("Err", "None"):
+                            continue            # the failure value of the same Result: not the step
+                        if rv["r"] == "agg" and rv.get("var") in ("Ok", "Some") and rv["ops"] and direct(rv["ops"][0], depth - 1):
+                            hit = True
+                        elif rv["r"] in ("use", "cast") and isinstance(rv.get("o"), dict) and direct(rv["o"], depth - 1):
+                            hit = True
+                        else:
+                            return False
+                return hit
 
             def scaled(o):
                 """operand is M's result multiplied by something (the channel count)"""
@@ -274,7 +327,7 @@ def run(ctx, rep):
             bsl = backward_slice(db, s["rv"]["ops"][0])
             to_pt = any(re.search(r"checked_add$", callee_name(c)) for c in bsl["calls"]) or "byte_offset" in bsl["fields"]
             if to_pt:
-                goodp = "sample_offset" in backward_slice(db, s["rv"]["ops"][1])["fields"]
+                goodp = "sample_offset" in _fields_deep(F, db, s["rv"]["ops"][1])
             else:
                 goodp = op_int(s["rv"]["ops"][1]) == 0 and 2 in bsl["args"] and not bsl["calls"]
             rep.check("C06.state", "a byte target is paired with the sample position it belongs to (%s)" % ("seek point" if to_pt else "stream start"), goodp, db.loc(s["sp"]), "",
@@ -290,7 +343,7 @@ def run(ctx, rep):
             if good:
                 w = mine[0][1]
                 if to_point:
-                    good = "sample_offset" in backward_slice(db, w["rv"]["o"])["fields"] if w["rv"]["r"] == "use" else False
+                    good = "sample_offset" in _fields_deep(F, db, w["rv"]["o"]) if w["rv"]["r"] == "use" else False
                     detail = "current_sample = the point's sample_offset"
                 else:
                     good = w["rv"]["r"] == "use" and op_int(w["rv"]["o"]) == 0
@@ -299,7 +352,7 @@ def run(ctx, rep):
                 myrets = [(bi, s) for bi, s in rets if db.dominates(mine[0][0], bi)]
                 if good and myrets:
                     r = myrets[0][1]["rv"]["ops"][0]
-                    good = (op_int(r) == 0) if not to_point else ("sample_offset" in backward_slice(db, r)["fields"])
+                    good = (op_int(r) == 0) if not to_point else ("sample_offset" in _fields_deep(F, db, r))
                 else:
                     good = False
             rep.check("C06.state", "reposition to %s sets current_sample and returns the same position" % ("a seek point" if to_point else "the stream start"), good, loc_of(db, st), detail,
@@ -318,11 +371,12 @@ def run(ctx, rep):
                             le = True
         names = [strip_generics(callee_name(t)).rsplit("::", 1)[-1] for c2 in [db] + cl for _, t in c2.calls()]
         # idioms for "the last element satisfying the predicate": filter(p).next_back() / filter(p).last() / rev().find(p) / rfind(p)
-        last_idiom = ("filter" in names and ("next_back" in names or "last" in names)) or ("rev" in names and "find" in names) or "rfind" in names
-        first_idiom = ("filter" in names and "next" in names and "next_back" not in names and "last" not in names) or ("find" in names and "rev" not in names)
+        finds = "find" in names or "find_map" in names
+        last_idiom = ("filter" in names and ("next_back" in names or "last" in names)) or ("rev" in names and finds) or "rfind" in names
+        first_idiom = ("filter" in names and "next" in names and "next_back" not in names and "last" not in names) or (finds and "rev" not in names)
         rep.check("C06.table", "seek point = last point with sample_offset <= target (filter .. next_back)", le and last_idiom and not first_idiom, loc_of(db), str([n for n in names if n in ("filter", "next_back", "last", "rev", "find", "rfind", "next")]))
         ca = [t for _, t in db.calls() if re.search(r"<impl u64>::checked_add$", callee_name(t))]
-        goodca = len(ca) == 1 and 2 in backward_slice(db, ca[0]["a"][0])["args"] and "byte_offset" in backward_slice(db, ca[0]["a"][1])["fields"]
+        goodca = len(ca) == 1 and 2 in backward_slice(db, ca[0]["a"][0])["args"] and "byte_offset" in _fields_deep(F, db, ca[0]["a"][1])
         rep.check("C06.table", "byte target = position of the first frame + the point's byte offset (checked)", goodca, loc_of(db))
 
     # ---- C06.inval ------------------------------------------------------------------------------------------
